@@ -5,7 +5,10 @@ use log::{debug, error};
 use md5::{Digest, Md5};
 use socket2::{SockRef, TcpKeepalive};
 use tokio::io::{AsyncReadExt, AsyncWriteExt};
+#[cfg(not(pgcat_verif))]
 use tokio::net::TcpStream;
+#[cfg(pgcat_verif)]
+use crate::verif::net::TcpStream;
 
 use crate::client::PREPARED_STATEMENT_COUNTER;
 use crate::config::get_config;
@@ -708,6 +711,10 @@ pub fn server_parameter_message(key: &str, value: &str) -> BytesMut {
     server_info
 }
 
+#[cfg(pgcat_verif)]
+pub fn configure_socket(_stream: &TcpStream) {}
+
+#[cfg(not(pgcat_verif))]
 pub fn configure_socket(stream: &TcpStream) {
     let sock_ref = SockRef::from(stream);
     let conf = get_config();
